@@ -164,7 +164,7 @@ def line_of(src: str, pos: int) -> int:
     return src.count('\n', 0, pos) + 1
 
 
-def find_range(src: str, m: str, impl_regex: str, fn_name: str, start_re: str, end_re: str, exclusive: bool = False, start_after: bool = False):
+def find_range(src: str, m: str, impl_regex: str, fn_name: str, start_re: str, end_re: str, exclusive: bool = False, start_after: bool = False, start_nth=None):
     """Inside fn body, the range runs from the start of the first line matching start_re to the end of the
     first line (at or after it) matching end_re, inclusive. Braces inside the range must balance."""
     f = find_fn(src, m, impl_regex, fn_name)
@@ -177,6 +177,10 @@ def find_range(src: str, m: str, impl_regex: str, fn_name: str, start_re: str, e
         offs.append(o)
         o += len(ln) + 1
     s_hits = [i for i, ln in enumerate(lines) if re.search(start_re, ln)]
+    if start_nth is not None:
+        if start_nth >= len(s_hits):
+            raise AnchorError(f'range start /{start_re}/ #{start_nth} in fn {fn_name}: only {len(s_hits)} matches')
+        s_hits = [s_hits[start_nth]]
     if len(s_hits) != 1:
         raise AnchorError(f'range start /{start_re}/ in fn {fn_name} matched {len(s_hits)} lines')
     si = s_hits[0]
